@@ -98,7 +98,7 @@ def canonical_lexical(g):
 
 
 def run_cli(args, cwd):
-    env = dict(os.environ, PYTHONPATH="/repo", PYTHONWARNINGS="ignore")
+    env = dict(os.environ, PYTHONPATH=os.environ.get("VERIF_REPO", "/repo"), PYTHONWARNINGS="ignore")
     p = subprocess.run(["/venv/bin/python", "-m", "pyshacl"] + args, cwd=cwd, env=env, stdout=subprocess.PIPE, stderr=subprocess.PIPE, timeout=180)
     return p.returncode, p.stdout, p.stderr.decode("utf-8", "replace")
 
